@@ -188,6 +188,9 @@ func (w *verifC24World) step() {
 		x.streams[op.stream].Close()
 		vCover("close")
 	case 4:
+		if len(w.R.m.pendingInboundStreamIdentifiers) == w.R.m.configuration.AcceptBacklog {
+			vCover("open-rejected")
+		}
 		w.S.streams = append(w.S.streams, verifOpenStream(w.S.m))
 		w.S.halfC = append(w.S.halfC, false)
 		w.S.closed = append(w.S.closed, false)
@@ -266,7 +269,9 @@ func VerifC24Conform() {
 	w.S.out.onEmpty = func() {
 		if first {
 			first = false
-			for i := 0; i < pre; i++ {
+			// R takes what its backlog holds; opens beyond the backlog were
+			// rejected by the reader loop (a close is queued for them)
+			for i := 0; len(w.R.m.pendingInboundStreamIdentifiers) > 0; i++ {
 				stream, err := w.R.m.acceptOneStream(context.Background())
 				vAssert(err == nil, "accept: succeeds")
 				if err != nil {
@@ -274,6 +279,9 @@ func VerifC24Conform() {
 				}
 				w.R.streams[i] = stream
 				w.deliver(1)
+			}
+			if len(w.R.m.enqueueClose) > 0 {
+				vCover("open-rejected")
 			}
 		}
 		w.onEmpty()
